@@ -38,7 +38,7 @@ BUDGET = {
 @st.composite
 def _case(draw, tier):
     big = tier == "thorough"
-    desc = draw(gen.wellformed(wf_wds=(None, None, "wdir"), max_targets=9 if big else 6, max_files=12 if big else 9, ticks=3, min_targets=2,
+    desc = draw(gen.wellformed(wf_wds=(None, None, "wdir"), wds=(None, None, None, "w1"), max_targets=9 if big else 6, max_files=12 if big else 9, ticks=3, min_targets=2,
                                shapes=(0, 2, 4, 5, 7), spellings=(0, 1, 2, 3, 4, 5, 7), protect=True))
     names = [t["name"] for t in desc["targets"]]
     # make outputs mostly exist
